@@ -28,9 +28,9 @@ func corruptFrame(env *Env, b []byte) []byte {
 	out := append([]byte(nil), b...)
 	fields := bytes.Split(bytes.TrimSuffix(out, []byte{1}), []byte{1})
 	join := func(f [][]byte) []byte { return append(bytes.Join(f, []byte{1}), 1) }
-	kind := ch.Choose("corruption", 18)
+	kind := ch.Choose("corruption", 19)
 	env.Stat("fault_corrupt_" + []string{"bitflip", "delbyte", "insbyte", "dupbytes", "delfield", "dupfield", "swapfields", "emptyvalue",
-		"bodylen_huge", "bodylen_negative", "bodylen_offbyone", "truncate", "xmldata", "garbage_prefix", "bodylen_zero", "nonnumeric_tag", "extreme_integer", "xml_swallows_trailer_then_group"}[kind])
+		"bodylen_huge", "bodylen_negative", "bodylen_offbyone", "truncate", "xmldata", "garbage_prefix", "bodylen_zero", "nonnumeric_tag", "extreme_integer", "xml_swallows_trailer_then_group", "group_count_lies"}[kind])
 	switch kind {
 	case 0:
 		i := ch.Choose("pos", len(out))
@@ -125,6 +125,22 @@ func corruptFrame(env *Env, b []byte) []byte {
 			fields = append(fields[:len(fields)-1], tail...)
 			out = join(fields)
 		}
+	case 18:
+		// a repeating group whose count field lies (negative, zero, too small, too large, not a number),
+		// placed in front of the trailer; the envelope is repaired below in half of the cases
+		if len(fields) >= 3 {
+			g := [][]string{{"268", "269=0", "270=1.5", "271=5"}, {"453", "448=PTY", "447=D", "452=1"}, {"146", "55=SYM", "65=X"}, {"78", "79=ACC", "80=10"}, {"267", "269=0"}}[ch.Choose("grouptag", 5)]
+			cnt := []string{"-1", "0", "1", "3", "99999", "-9223372036854775808", "x", "", "2147483648"}[ch.Choose("groupcount", 9)]
+			ins := [][]byte{[]byte(g[0] + "=" + cnt)}
+			for k := ch.Choose("groupinstances", 4); k > 0; k-- {
+				for _, e := range g[1:] {
+					ins = append(ins, []byte(e))
+				}
+			}
+			tail := append(ins, fields[len(fields)-1])
+			fields = append(append([][]byte(nil), fields[:len(fields)-1]...), tail...)
+			out = join(fields)
+		}
 	case 16:
 		// an integer field (sequence numbers, ranges, intervals) with an extreme value
 		var nums []int
@@ -210,7 +226,11 @@ func runC09(env *Env, tier string) {
 		if ch.Choose("corrupt?", 10) < rate {
 			corrupted++
 			p.Bytewise = true // framing on this connection may be damaged from here on
-			return corruptFrame(env, b)
+			cb := corruptFrame(env, b)
+			if !env.Failed() {
+				c09APIProbe(env, cb, corrupted*7919)
+			}
+			return cb
 		}
 		return b
 	}
